@@ -492,9 +492,8 @@ def remesh_there_and_back_restores_totals(ctx, ns, nd, pat, nucs=("U235", "FE"))
                        "code updated it) or keeps what the previous mapping left on it; volume-integrated scalar and "
                        "2-vector, averaged scalar, peak scalar", stubs=STUBS, qtimeout_ms=30000,
          instances={"quick": [dict(seq=("AB", "AB")), dict(seq=("AB", "BA", "AB"), ns=1)],
-                    "thorough": [dict(seq=("AB", "BA", "AB")), dict(seq=("AB", "BA", "BA")),
-                                 dict(seq=("AB", "BA", "AB"), fresh=(True, True, False)),
-                                 dict(seq=("AB", "AB", "AB"), ns=3)]})
+                    "thorough": [dict(seq=("AB", "BA", "AB")), dict(seq=("AB", "BA", "AB"), fresh=(True, True, False)),
+                                 dict(seq=("AB", "AB"), ns=3)]})
 def one_mapper_serves_a_history_of_mappings(ctx, seq, ns=2, nd=2, fresh=None, pat=None):
     fresh = fresh or (True,) * len(seq)
     P, Q = two_point_meshes(ctx, ns, nd, pat or (None,) * (nd - 1))
